@@ -206,6 +206,7 @@ type c11Chunk struct {
 	// value-carrying metadata (column index, size statistics, statistics, encoding statistics) in
 	// the text of the `copy.splicev` op (SpliceMeta.lean)
 	Values               string
+	PageErr              string // a page location of the offset index does not lead to a page header
 }
 
 func (p c11Page) trivial() bool { return !p.NullPage && p.NullCount == 0 && p.MinLen == 0 && p.MaxLen == 0 }
@@ -264,10 +265,12 @@ func c11FileInfo(file []byte, f *parquet.File) (out [][]c11Chunk, err error) {
 					p := thrift.CompactProtocol{}
 					end := loc.Offset + int64(loc.CompressedPageSize)
 					if loc.Offset < 0 || end > int64(len(file)) {
-						return nil, fmt.Errorf("page location outside the file")
+						c.PageErr = "page location outside the file"
+						continue
 					}
 					if e := thrift.NewDecoder(p.NewReader(bytes.NewReader(file[loc.Offset:end]))).Decode(&h); e != nil {
-						return nil, fmt.Errorf("page header: %w", e)
+						c.PageErr = fmt.Sprintf("page header: %v", e)
+						continue
 					}
 					pg := c11Page{Type: int(h.Type)}
 					var st format.Statistics
@@ -366,6 +369,9 @@ func (env *c11Env) open(file []byte, rows reflect.Value) (*c11File, error) {
 	info, err := c11FileInfo(file, f)
 	if err != nil {
 		return nil, err
+	}
+	if e := c11PageErr(info); e != "" {
+		return nil, fmt.Errorf("%s", e)
 	}
 	cf := &c11File{bytes: file, f: f, info: info, rgs: f.RowGroups()}
 	start := 0
@@ -952,6 +958,17 @@ func c11SpliceL2(ctx *core.Ctx, env *c11Env, d interface {
 	}
 }
 
+func c11PageErr(info [][]c11Chunk) string {
+	for gi, rg := range info {
+		for ci := range rg {
+			if rg[ci].PageErr != "" {
+				return fmt.Sprintf("row group %d column %d: %s", gi, ci, rg[ci].PageErr)
+			}
+		}
+	}
+	return ""
+}
+
 // c11LayoutOnly strips the value parts (`~...`) of a `copy.splicev` answer
 func c11LayoutOnly(ans string) string {
 	f := strings.Fields(ans)
@@ -1342,9 +1359,18 @@ func c11Run(ctx *core.Ctx, env *c11Env, d interface {
 		ctx.Fail("L1", "output-metadata-unreadable "+sig, fmt.Sprintf("page headers / indexes unreadable: %v %v", err1, err2), detail(nil))
 		return
 	}
+	if e := c11PageErr(refInfo); e != "" {
+		ctx.Fail("L1", "output-metadata-unreadable "+sig, "page headers / indexes of the file written row by row unreadable: "+e, detail(nil))
+		return
+	}
 	ncol := len(c.schema.Columns())
 	aspects, stat := c11Settings(c.b, outInfo, refInfo, ncol)
 	extra := map[string]any{"copied_chunks": out.copyN, "reencoded_row_groups": out.reencN, "output_row_groups": rowGroupSizes(outInfo)}
+	if e := c11PageErr(outInfo); e != "" {
+		// the settings oracle needs every page header; the L2 comparison below still runs
+		ctx.Fail("L1", "output-metadata-unreadable "+sig, "page headers / indexes unreadable: a page location of the output's offset index does not lead to a page header: "+e, detail(extra))
+		aspects, stat = nil, nil
+	}
 	for _, a := range aspects {
 		extra["violated"] = a
 		ctx.Fail("L1", "setting-not-honoured "+aspectClass(a)+" "+pathSig, "the destination writer's setting is not honoured by WriteRowGroup: "+a, detail(extra))
